@@ -82,3 +82,8 @@ CLAIMS["C10"] = {
     "note": "The flush driver is the cfg-guarded wrapper that performs exactly the forwarder's per-cycle steps. Sampling (reservoir) is covered by C16. One history class is a listed known finding (first absolute() racing a flush).",
     "technique": "runtime monitoring: gated hook schedules on the aggregation atomics + conservation/interval oracle over decoded flush outputs; socket-level capture with independent decoder",
 }
+CLAIMS["C19"] = {
+    "text": "Exploration: thousands of describe/register/update/snapshot histories compared with a reference snapshot (membership, order of first registration, values, drain-once histogram contents, unit/description rules, isolation between recorders), plus concurrent recorder-vs-snapshot runs judged by exactly-once / never-late rules on unique histogram values and an interval rule on counters; Miri re-runs small concurrent cases.",
+    "note": "Relies on C05/C06 for the bucket and registry; histogram values are unique per run so membership is unambiguous.",
+    "technique": "runtime monitoring: reference snapshot model per history; exactly-once interval oracle over concurrent record vs snapshot histories; Miri",
+}
